@@ -21,7 +21,8 @@ func propC03() *Property {
 			{ID: "R03.3", Floor: 4, Text: "every transmission of the stream transport holds oLock (shared with R01.4)", Run: r01_4},
 			{ID: "R03.4", Floor: 2, Text: "sendQueue.DeleteAll / sendBuf.DeleteAll only in closeWithError", Run: r03_4},
 			{ID: "R03.5", Floor: 3, Text: "a close request ahead of undelivered segments marks the session incomplete before closing it", Run: r03_5},
-			{ID: "R03.7", Floor: 1, Text: "a close request made by the datagram underlay for an unknown session cannot pass for a clean close (seq = unAckSeq + k, k >= 1)", Run: r03_7},
+			{ID: "R03.7", Floor: 1, Text: "a close request made by the datagram underlay cannot pass for a clean close (seq = unAckSeq + k, k >= 1) and is made only for a session id that is not in the map", Run: r03_7},
+			{ID: "R03.8", Floor: 1, Text: "a retransmitted data segment carries the current nextRecv as unAckSeq (what R03.7's unAckSeq + 1 is measured against)", Run: r03_8},
 			{ID: "R03.6", Floor: 2, Text: "Read returns io.EOF only with nothing left and the session not marked incomplete", Run: r03_6},
 		},
 	}
@@ -747,6 +748,36 @@ func r03_7(c *RC) {
 				}
 			}
 		}
+		// ... and it is made only for a session id that is not in the map.
+		// A session that is still registered (closing, closed but not yet
+		// swept) is answered by that session or not at all: its state says
+		// nothing the peer's acks have not said already, and a close request
+		// built from an ack that is still in flight can overtake nothing but
+		// the data it was meant to protect.
+		unknownOnly := false
+		for _, e := range controllingEdges(in.Block()) {
+			atom, neg := condAtom(e.If.Cond)
+			ex, isEx := atom.(*ssa.Extract)
+			if !isEx || ex.Index != 1 {
+				continue
+			}
+			cl, isCall := ex.Tuple.(*ssa.Call)
+			if !isCall || calleeID(cl) != "(*sync.Map).Load" {
+				continue
+			}
+			if f := fieldOrigin(cl.Common().Args[0]); f == nil || f.Name() != "sessionMap" {
+				continue
+			}
+			found := (e.Idx == 0) != neg
+			if !found {
+				unknownOnly = true
+			}
+		}
+		if !unknownOnly {
+			c.Bad("synthetic-close-only-for-unknown", in.Pos(), "the datagram event loop makes a close request of its own on a path that is not simply 'sessionMap.Load found nothing': a session that still exists (for instance one that was just closed locally) would be answered with unAckSeq+1 taken from an ack that may still be overtaken by data in flight, and the peer would read a clean end-of-stream after a strict prefix")
+		} else {
+			c.OKH("synthetic-close-only-for-unknown", in.Pos(), "made only on the not-found edge of sessionMap.Load")
+		}
 		switch {
 		case ahead:
 			c.OKH(key, in.Pos(), "the close request made for an unknown session carries unAckSeq + k (k >= 1): the peer's gap test fires")
@@ -840,4 +871,106 @@ func closeWaitHelper(fn *ssa.Function) *closeWait {
 		return nil
 	}
 	return w
+}
+
+
+// r03_8: the F15 repair (a close request made for an unknown session carries
+// unAckSeq + 1 of the datagram that provoked it) is only as good as the
+// unAckSeq of every datagram a live session sends: a retransmitted data
+// segment must say what has been received by now, not what had been received
+// when it was first sent. Otherwise the reply to a retransmission is judged
+// against a later nextRecv at the peer and passes for a clean close.
+// Decided: in the retransmission visitor of runOutputOncePacket, output(iter)
+// of a data/ack segment is preceded by `das.unAckSeq = s.nextRecv.Load()`.
+func r03_8(c *RC) {
+	p := c.P
+	fn := p.Fn(protoPkg, "Session.runOutputOncePacket")
+	sb := p.Field(protoPkg, "Session", "sendBuf")
+	ua := p.Field(protoPkg, "dataAckStruct", "unAckSeq")
+	nr := p.Field(protoPkg, "Session", "nextRecv")
+	if fn == nil || sb == nil || ua == nil || nr == nil {
+		c.Anchor("Session.runOutputOncePacket / sendBuf / dataAckStruct.unAckSeq / Session.nextRecv")
+		return
+	}
+	var clo *ssa.Function
+	instrs(fn, func(_ *ssa.BasicBlock, _ int, in ssa.Instruction) {
+		cl, ok := in.(*ssa.Call)
+		if !ok || calleeName(cl) != "Ascend" || !sameField(fieldOrigin(cl.Call.Args[0]), sb) {
+			return
+		}
+		cf, _ := closureOf(cl.Call.Args[1])
+		if cf == nil {
+			return
+		}
+		for _, vf := range withHelpers(p, cf, 1) {
+			instrs(vf, func(_ *ssa.BasicBlock, _ int, x ssa.Instruction) {
+				if xc, ok := x.(*ssa.Call); ok && calleeName(xc) == "output" {
+					clo = vf
+				}
+			})
+		}
+	})
+	if clo == nil {
+		c.Undecided("retransmission-carries-current-ack", fn.Pos(), "cannot find the retransmission visitor of runOutputOncePacket")
+		return
+	}
+	instrs(clo, func(_ *ssa.BasicBlock, _ int, in ssa.Instruction) {
+		oc, ok := in.(*ssa.Call)
+		if !ok || calleeName(oc) != "output" {
+			return
+		}
+		// a store das.unAckSeq = nextRecv.Load() from which output is reached,
+		// on the data/ack branch, and no way around that branch for a data/ack segment
+		var refresh *ssa.Store
+		instrs(clo, func(_ *ssa.BasicBlock, _ int, x ssa.Instruction) {
+			st, ok := x.(*ssa.Store)
+			if !ok {
+				return
+			}
+			if f, _ := fieldOfAddr(st.Addr); !sameField(f, ua) {
+				return
+			}
+			for _, l := range Leaves(st.Val, nil) {
+				if cl, ok := l.(*ssa.Call); ok && calleeName(cl) == "Load" && sameField(fieldOrigin(cl.Call.Args[0]), nr) {
+					refresh = st
+				}
+			}
+		})
+		key := "retransmission-carries-current-ack"
+		if refresh == nil {
+			c.Bad(key, in.Pos(), "a retransmitted data segment goes out with the unAckSeq it had when first sent: the peer (or a datagram underlay answering for a swept session with unAckSeq+1) is told less than what was received, and a close request derived from it can pass the receiver's gap test after a strict prefix")
+			return
+		}
+		// the refresh is guarded by "is a data/ack segment" only, and reaches the output
+		guarded := false
+		for _, e := range controllingEdges(refresh.Block()) {
+			atom, neg := condAtom(e.If.Cond)
+			if cl, ok := atom.(*ssa.Call); ok && calleeName(cl) == "isDataAckProtocol" && (e.Idx == 0) != neg {
+				guarded = true
+			}
+		}
+		reaches := reachableAvoiding(clo, refresh, func(x ssa.Instruction) bool { return x == in }, nil) != nil
+		// for a data/ack segment the output cannot be reached around the refresh
+		atomF := func(cond ssa.Value) (string, int, bool) {
+			v, neg := condAtom(cond)
+			if cl, ok := v.(*ssa.Call); ok && calleeName(cl) == "isDataAckProtocol" {
+				ti := 0
+				if neg {
+					ti = 1
+				}
+				return "data-ack", ti, true
+			}
+			return "", 0, false
+		}
+		ex := &Explorer{Fn: clo, Atom: atomF, Assume: map[string]bool{"data-ack": true}, Avoid: func(x ssa.Instruction) bool { return x == ssa.Instruction(refresh) }}
+		around := ex.Reach(nil, func(x ssa.Instruction) bool { return x == in })
+		switch {
+		case ex.Over:
+			c.Undecided(key, in.Pos(), "exploration budget exceeded")
+		case guarded && reaches && around == nil:
+			c.OKH(key, refresh.Pos(), "das.unAckSeq = nextRecv.Load() on every path on which a data/ack segment is retransmitted")
+		default:
+			c.Bad(key, in.Pos(), "a data/ack segment can be retransmitted without refreshing its unAckSeq from nextRecv (refresh on the data/ack branch=%v, reaches output=%v, output reachable around it=%v)", guarded, reaches, around != nil)
+		}
+	})
 }
